@@ -354,7 +354,8 @@ class CarbonClientFactory(with_metaclass(PluginRegistrar, ReconnectingClientFact
     if self.queueSize >= settings.MAX_QUEUE_SIZE:
       if not self.queueFull.called:
         self.queueFull.callback(self.queueSize)
-      if self.queueSize < SEND_QUEUE_HARD_MAX:
+      # room for one more below the (possibly fractional) hard limit?
+      if self.queueSize + 1 <= SEND_QUEUE_HARD_MAX:
         self.enqueue(metric, datapoint)
       else:
         instrumentation.increment(self.fullQueueDrops)
